@@ -189,9 +189,21 @@ func verifExt_zstd_WithEncoderLevel(l zstd.EncoderLevel) zstd.EOption {
 	}
 	return nil
 }
-func verifExt_zstd_Encoder_Close(e *zstd.Encoder) error               { return nil }
-func verifExt_zstd_Encoder_MaxEncodedSize(e *zstd.Encoder, n int) int { return n + 64 }
+
+// the real methods dereference their receiver: an encoder that NewWriter refused to build (nil)
+// must never be used
+func verifC19NeedEncoder(e *zstd.Encoder) {
+	if e == nil {
+		panic("zstd: method called on a nil *Encoder (NewWriter had failed)")
+	}
+}
+func verifExt_zstd_Encoder_Close(e *zstd.Encoder) error { verifC19NeedEncoder(e); return nil }
+func verifExt_zstd_Encoder_MaxEncodedSize(e *zstd.Encoder, n int) int {
+	verifC19NeedEncoder(e)
+	return n + 64
+}
 func verifExt_zstd_Encoder_EncodeAll(e *zstd.Encoder, src, dst []byte) []byte {
+	verifC19NeedEncoder(e)
 	verifC19.encoded, verifC19.encCodec = verifC19SomeBytes("zstd.out"), CodecZstd
 	return append(dst, verifC19.encoded...)
 }
